@@ -36,8 +36,11 @@ def run(cx):
                  ("R01b", "the suffix splice is evaluated on every completion path before the node is handed over"),
                  ("R01c", "roll-back resets all per-alternative state"),
                  ("R01d", "leaves are exactly the non-skipped tokens, in order"),
-                 ("R01e", "the returned root is the start symbol's node")):
+                 ("R01e", "the returned root is the start symbol's node"),
+                 ("R01f", "the factored prefix is common to all alternatives of the group (spliced nodes are user productions)")):
         cx.rule(r, t)
+    from rules.c02 import common_prefix_rule
+    cx.guard(common_prefix_rule, cx, "R01f")
     fcp = cx.func(REL, "LLParser._factorize_common_prefix_prods", "R01a")
     fp = cx.func(REL, "LLParser._factorize_productions", "R01a")
     ctor = cx.func(REL, "LLParser.__init__", "R01a")
